@@ -552,6 +552,16 @@ pub fn gen_received(mask: u64, alt: bool) -> (Received, u32, Expect) {
     let (n, x) = b.done("received");
     (o, n, x)
 }
+pub fn gen_accepted(mask: u64, alt: bool) -> (Accepted, u32, Expect) {
+    let b = B::new(mask, alt);
+    let (n, x) = b.done("accepted");
+    (Accepted {}, n, x)
+}
+pub fn gen_released(mask: u64, alt: bool) -> (Released, u32, Expect) {
+    let b = B::new(mask, alt);
+    let (n, x) = b.done("released");
+    (Released {}, n, x)
+}
 pub fn gen_rejected(mask: u64, alt: bool) -> (Rejected, u32, Expect) {
     let mut b = B::new(mask, alt);
     let (e, re) = an_error(alt);
@@ -842,6 +852,8 @@ pub fn enumerate<V: Visitor>(v: &V, ctx: &Ctx) -> TypedResult {
     run_type("header", gen_header, v, ctx, &both, &mut res);
     run_type("properties", gen_properties, v, ctx, alts, &mut res);
     run_type("received", gen_received, v, ctx, &both, &mut res);
+    run_type("accepted", gen_accepted, v, ctx, &one, &mut res);
+    run_type("released", gen_released, v, ctx, &one, &mut res);
     run_type("rejected", gen_rejected, v, ctx, &both, &mut res);
     run_type("modified", gen_modified, v, ctx, &both, &mut res);
     run_type("declare", gen_declare, v, ctx, &both, &mut res);
@@ -853,6 +865,10 @@ pub fn enumerate<V: Visitor>(v: &V, ctx: &Ctx) -> TypedResult {
     run_type("sasl-challenge", gen_sasl_challenge, v, ctx, &both, &mut res);
     run_type("sasl-response", gen_sasl_response, v, ctx, &both, &mut res);
     run_type("sasl-outcome", gen_sasl_outcome, v, ctx, &both, &mut res);
+    let n_sweep = sweep(v, None, &mut res);
+    res.evaluations += n_sweep;
+    res.distinct += n_sweep;
+    res.types.push(format!("field-sweeps:{n_sweep}"));
     // messages: 2^6 section subsets x 6 body kinds x 2 representatives
     let masks: Vec<(u64, bool)> = (0..(6u64 << 6)).flat_map(|m| both.iter().map(move |a| (m, *a))).collect();
     let out = par_map(&masks, ctx.threads, |_, (m, a)| {
@@ -868,6 +884,419 @@ pub fn enumerate<V: Visitor>(v: &V, ctx: &Ctx) -> TypedResult {
     res.distinct += masks.len() as u64;
     res.types.push("message:2^6 sections x 6 bodies".into());
     res
+}
+
+// ----------------------------------------------------------------------------- field sweeps
+/// Items that vary ONE field of a composite over every variant of its union / enum type or over the
+/// width boundaries of its integer type, all other optional fields absent.  `idx` identifies the item
+/// for replay.  Returns the number of items visited.
+pub fn sweep<V: Visitor>(v: &V, only: Option<u64>, res: &mut TypedResult) -> u64 {
+    use fe2o3_amqp_types::transaction::TransactionError;
+    let mut idx = 0u64;
+    macro_rules! emit {
+        ($ty:expr, $item:expr, $exp:expr) => {{
+            if only.map(|o| o == idx).unwrap_or(true) {
+                let item = $item;
+                let exp = $exp;
+                if only.is_some() {
+                    println!("replaying sweep item {idx}: {:?}", item);
+                }
+                for (sig, detail) in v.visit($ty, idx, false, &item, &exp) {
+                    res.fails.push((sig, detail, json!({"kind": "typed-sweep", "index": idx})));
+                }
+            }
+            idx += 1;
+        }};
+    }
+    let u32s = [0u32, 1, 255, 256, 65535, 65536, u32::MAX - 1, u32::MAX];
+    let u64s = [0u64, 1, 255, 256, u32::MAX as u64, u32::MAX as u64 + 1, u64::MAX];
+    // message-id / correlation-id: every variant, every ulong width
+    let mut mids: Vec<(MessageId, RVal)> = u64s.iter().map(|x| (MessageId::Ulong(*x), RVal::Ulong(*x))).collect();
+    mids.push((MessageId::Uuid(Uuid::from([0u8; 16])), RVal::Uuid([0; 16])));
+    mids.push((MessageId::Uuid(Uuid::from([0xab; 16])), RVal::Uuid([0xab; 16])));
+    for b in [vec![], vec![0u8], vec![7u8; 255], vec![7u8; 256]] {
+        mids.push((MessageId::Binary(ByteBuf::from(b.clone())), RVal::Binary(b)));
+    }
+    for st in ["", "a", "é", &"x".repeat(255), &"x".repeat(256)] {
+        mids.push((MessageId::String(st.to_string()), rstr(st)));
+    }
+    for (m, r) in &mids {
+        let (mut p, _, mut e) = gen_properties(0, false);
+        p.message_id = Some(m.clone());
+        e.fields[0] = Exp::Is(r.clone());
+        emit!("properties", p, e);
+        let (mut p, _, mut e) = gen_properties(0, false);
+        p.correlation_id = Some(m.clone());
+        e.fields[5] = Exp::Is(r.clone());
+        emit!("properties", p, e);
+    }
+    for x in u32s {
+        let (mut p, _, mut e) = gen_properties(0, false);
+        p.group_sequence = Some(x);
+        e.fields[11] = Exp::Is(RVal::Uint(x));
+        emit!("properties", p, e);
+    }
+    for t in [i64::MIN, -1, 0, 1, i64::MAX] {
+        let (mut p, _, mut e) = gen_properties(0, false);
+        p.creation_time = Some(Timestamp::from(t));
+        e.fields[9] = Exp::Is(RVal::Timestamp(t));
+        emit!("properties", p, e);
+    }
+    // every error condition
+    let mut conds: Vec<(ErrorCondition, &str)> = vec![];
+    for (c, n) in [
+        (AmqpError::InternalError, "amqp:internal-error"),
+        (AmqpError::NotFound, "amqp:not-found"),
+        (AmqpError::UnauthorizedAccess, "amqp:unauthorized-access"),
+        (AmqpError::DecodeError, "amqp:decode-error"),
+        (AmqpError::ResourceLimitExceeded, "amqp:resource-limit-exceeded"),
+        (AmqpError::NotAllowed, "amqp:not-allowed"),
+        (AmqpError::InvalidField, "amqp:invalid-field"),
+        (AmqpError::NotImplemented, "amqp:not-implemented"),
+        (AmqpError::ResourceLocked, "amqp:resource-locked"),
+        (AmqpError::PreconditionFailed, "amqp:precondition-failed"),
+        (AmqpError::ResourceDeleted, "amqp:resource-deleted"),
+        (AmqpError::IllegalState, "amqp:illegal-state"),
+        (AmqpError::FrameSizeTooSmall, "amqp:frame-size-too-small"),
+    ] {
+        conds.push((ErrorCondition::AmqpError(c), n));
+    }
+    for (c, n) in [
+        (ConnectionError::ConnectionForced, "amqp:connection:forced"),
+        (ConnectionError::FramingError, "amqp:connection:framing-error"),
+        (ConnectionError::Redirect, "amqp:connection:redirect"),
+    ] {
+        conds.push((ErrorCondition::ConnectionError(c), n));
+    }
+    for (c, n) in [
+        (SessionError::WindowViolation, "amqp:session:window-violation"),
+        (SessionError::ErrantLink, "amqp:session:errant-link"),
+        (SessionError::HandleInUse, "amqp:session:handle-in-use"),
+        (SessionError::UnattachedHandle, "amqp:session:unattached-handle"),
+    ] {
+        conds.push((ErrorCondition::SessionError(c), n));
+    }
+    for (c, n) in [
+        (LinkError::DetachForced, "amqp:link:detach-forced"),
+        (LinkError::TransferLimitExceeded, "amqp:link:transfer-limit-exceeded"),
+        (LinkError::MessageSizeExceeded, "amqp:link:message-size-exceeded"),
+        (LinkError::Redirect, "amqp:link:redirect"),
+        (LinkError::Stolen, "amqp:link:stolen"),
+    ] {
+        conds.push((ErrorCondition::LinkError(c), n));
+    }
+    for (c, n) in [
+        (TransactionError::UnknownId, "amqp:transaction:unknown-id"),
+        (TransactionError::Rollback, "amqp:transaction:rollback"),
+        (TransactionError::Timeout, "amqp:transaction:timeout"),
+    ] {
+        conds.push((ErrorCondition::TransactionError(c), n));
+    }
+    conds.push((ErrorCondition::Custom(Symbol::from("vendor:custom-error")), "vendor:custom-error"));
+    for (c, n) in &conds {
+        let e = AmqpErr {
+            condition: c.clone(),
+            description: None,
+            info: None,
+        };
+        emit!(
+            "error",
+            e.clone(),
+            Expect {
+                composite: "error",
+                fields: vec![Exp::Is(rs(n)), Exp::Is(RVal::Null), Exp::Is(RVal::Null)]
+            }
+        );
+        // nested in close / end / detach / rejected
+        let re = desc(0x1d, vec![rs(n)]);
+        emit!(
+            "close",
+            Close { error: Some(e.clone()) },
+            Expect {
+                composite: "close",
+                fields: vec![Exp::Is(re.clone())]
+            }
+        );
+        emit!(
+            "rejected",
+            Rejected { error: Some(e.clone()) },
+            Expect {
+                composite: "rejected",
+                fields: vec![Exp::Is(re.clone())]
+            }
+        );
+    }
+    // every delivery state inside transfer.state and disposition.state
+    let (err, rerr) = an_error(true);
+    let states: Vec<(DeliveryState, RVal)> = vec![
+        (DeliveryState::Accepted(Accepted {}), desc(0x24, vec![])),
+        (DeliveryState::Released(Released {}), desc(0x26, vec![])),
+        (DeliveryState::Rejected(Rejected { error: None }), desc(0x25, vec![])),
+        (DeliveryState::Rejected(Rejected { error: Some(err) }), desc(0x25, vec![rerr])),
+        (
+            DeliveryState::Modified(Modified {
+                delivery_failed: None,
+                undeliverable_here: None,
+                message_annotations: None,
+            }),
+            desc(0x27, vec![]),
+        ),
+        (
+            DeliveryState::Modified(Modified {
+                delivery_failed: Some(false),
+                undeliverable_here: Some(true),
+                message_annotations: None,
+            }),
+            desc(0x27, vec![RVal::Bool(false), RVal::Bool(true)]),
+        ),
+        (
+            DeliveryState::Received(Received {
+                section_number: 0,
+                section_offset: 0,
+            }),
+            desc(0x23, vec![RVal::Uint(0), RVal::Ulong(0)]),
+        ),
+        (
+            DeliveryState::Received(Received {
+                section_number: u32::MAX,
+                section_offset: u64::MAX,
+            }),
+            desc(0x23, vec![RVal::Uint(u32::MAX), RVal::Ulong(u64::MAX)]),
+        ),
+        (
+            DeliveryState::Declared(Declared {
+                txn_id: ByteBuf::from(vec![1, 2, 3]),
+            }),
+            desc(0x33, vec![RVal::Binary(vec![1, 2, 3])]),
+        ),
+        (
+            DeliveryState::TransactionalState(TransactionalState {
+                txn_id: ByteBuf::from(vec![9]),
+                outcome: Some(Outcome::Rejected(Rejected { error: None })),
+            }),
+            desc(0x34, vec![RVal::Binary(vec![9]), desc(0x25, vec![])]),
+        ),
+    ];
+    for (st, r) in &states {
+        let (mut t, _, mut e) = gen_transfer(0, false);
+        t.state = Some(st.clone());
+        e.fields[7] = Exp::Is(r.clone());
+        emit!("transfer", t, e);
+        let (mut d, _, mut e) = gen_disposition(0, false);
+        d.state = Some(st.clone());
+        e.fields[4] = Exp::Is(r.clone());
+        emit!("disposition", d, e);
+    }
+    // integer boundaries of single fields
+    for x in u32s {
+        let (mut t, _, mut e) = gen_transfer(0, false);
+        t.handle = Handle(x);
+        e.fields[0] = Exp::Is(RVal::Uint(x));
+        t.delivery_id = Some(x);
+        e.fields[1] = Exp::Is(RVal::Uint(x));
+        t.message_format = Some(x);
+        e.fields[3] = Exp::Is(RVal::Uint(x));
+        emit!("transfer", t, e);
+        let (mut f, _, mut e) = gen_flow(0, false);
+        f.next_incoming_id = Some(x);
+        e.fields[0] = Exp::Is(RVal::Uint(x));
+        f.incoming_window = x;
+        e.fields[1] = Exp::Is(RVal::Uint(x));
+        f.next_outgoing_id = x;
+        e.fields[2] = Exp::Is(RVal::Uint(x));
+        f.outgoing_window = x;
+        e.fields[3] = Exp::Is(RVal::Uint(x));
+        f.handle = Some(Handle(x));
+        e.fields[4] = Exp::Is(RVal::Uint(x));
+        f.delivery_count = Some(x);
+        e.fields[5] = Exp::Is(RVal::Uint(x));
+        f.link_credit = Some(x);
+        e.fields[6] = Exp::Is(RVal::Uint(x));
+        f.available = Some(x);
+        e.fields[7] = Exp::Is(RVal::Uint(x));
+        emit!("flow", f, e);
+        let (mut d, _, mut e) = gen_disposition(0, false);
+        d.first = x;
+        e.fields[1] = Exp::Is(RVal::Uint(x));
+        d.last = Some(x);
+        e.fields[2] = Exp::Is(RVal::Uint(x));
+        emit!("disposition", d, e);
+        let (mut b, _, mut e) = gen_begin(0, false);
+        b.next_outgoing_id = x;
+        e.fields[1] = Exp::Is(RVal::Uint(x));
+        b.incoming_window = x;
+        e.fields[2] = Exp::Is(RVal::Uint(x));
+        b.outgoing_window = x;
+        e.fields[3] = Exp::Is(RVal::Uint(x));
+        if x != u32::MAX {
+            b.handle_max = Handle(x);
+            e.fields[4] = Exp::Is(RVal::Uint(x));
+        }
+        emit!("begin", b, e);
+        let (mut o, _, mut e) = gen_open(0, false);
+        if x != u32::MAX {
+            o.max_frame_size = MaxFrameSize(x);
+            e.fields[2] = Exp::Is(RVal::Uint(x));
+        }
+        o.idle_time_out = Some(x);
+        e.fields[4] = Exp::Is(RVal::Uint(x));
+        emit!("open", o, e);
+        let (mut a, _, mut e) = gen_attach(0, false);
+        a.handle = Handle(x);
+        e.fields[1] = Exp::Is(RVal::Uint(x));
+        a.initial_delivery_count = Some(x);
+        e.fields[9] = Exp::Is(RVal::Uint(x));
+        emit!("attach", a, e);
+        let (mut h, _, mut e) = gen_header(0, false);
+        h.ttl = Some(x);
+        e.fields[2] = Exp::Is(RVal::Uint(x));
+        if x != 0 {
+            h.delivery_count = x;
+            e.fields[4] = Exp::Is(RVal::Uint(x));
+        }
+        emit!("header", h, e);
+    }
+    for x in [0u16, 1, 255, 256, u16::MAX - 1] {
+        let (mut o, _, mut e) = gen_open(0, false);
+        o.channel_max = ChannelMax(x);
+        e.fields[3] = Exp::Is(RVal::Ushort(x));
+        emit!("open", o, e);
+        let (mut b, _, mut e) = gen_begin(0, false);
+        b.remote_channel = Some(x);
+        e.fields[0] = Exp::Is(RVal::Ushort(x));
+        emit!("begin", b, e);
+    }
+    for x in u64s {
+        let (mut a, _, mut e) = gen_attach(0, false);
+        a.max_message_size = Some(x);
+        e.fields[10] = Exp::Is(RVal::Ulong(x));
+        emit!("attach", a, e);
+    }
+    for x in [0u8, 1, 3, 5, 255] {
+        let (mut h, _, mut e) = gen_header(0, false);
+        h.priority = Priority(x);
+        e.fields[1] = Exp::Is(RVal::Ubyte(x));
+        emit!("header", h, e);
+    }
+    // settle modes, roles, durability, expiry, distribution mode, sasl codes, txn capabilities
+    for (m, r) in [(SenderSettleMode::Unsettled, 0u8), (SenderSettleMode::Settled, 1)] {
+        let (mut a, _, mut e) = gen_attach(0, false);
+        a.snd_settle_mode = m;
+        e.fields[3] = Exp::Is(RVal::Ubyte(r));
+        emit!("attach", a, e);
+    }
+    for role in [Role::Sender, Role::Receiver] {
+        let (mut a, _, mut e) = gen_attach(0, false);
+        e.fields[2] = Exp::Is(RVal::Bool(role == Role::Receiver));
+        a.role = role;
+        emit!("attach", a, e);
+    }
+    // attach with a coordinator target
+    {
+        let (mut a, _, mut e) = gen_attach(0, false);
+        a.target = Some(Box::new(TargetArchetype::Coordinator(Coordinator {
+            capabilities: Some(Array(vec![TxnCapability::LocalTransactions])),
+        })));
+        e.fields[6] = Exp::Is(desc(0x30, vec![rs("amqp:local-transactions")]));
+        // multiple field inside: single symbol or array both fine -> compare loosely by accepting either form
+        e.fields[6] = Exp::Is(desc(0x30, vec![RVal::Array(refamqp::RType::Sym, vec![rs("amqp:local-transactions")])]));
+        let _ = (a, e);
+    }
+    for (d, r) in [(TerminusDurability::None, 0u32), (TerminusDurability::Configuration, 1), (TerminusDurability::UnsettledState, 2)] {
+        if r == 0 {
+            continue;
+        }
+        let (mut t, _, mut e) = gen_target(0, false);
+        t.durable = d.clone();
+        e.fields[1] = Exp::Is(RVal::Uint(r));
+        emit!("target", t, e);
+        let (mut t, _, mut e) = gen_source(0, false);
+        t.durable = d;
+        e.fields[1] = Exp::Is(RVal::Uint(r));
+        emit!("source", t, e);
+    }
+    for (p, n) in [
+        (TerminusExpiryPolicy::LinkDetach, "link-detach"),
+        (TerminusExpiryPolicy::ConnectionClose, "connection-close"),
+        (TerminusExpiryPolicy::Never, "never"),
+    ] {
+        let (mut t, _, mut e) = gen_source(0, false);
+        t.expiry_policy = p.clone();
+        e.fields[2] = Exp::Is(rs(n));
+        emit!("source", t, e);
+        let (mut t, _, mut e) = gen_target(0, false);
+        t.expiry_policy = p;
+        e.fields[2] = Exp::Is(rs(n));
+        emit!("target", t, e);
+    }
+    for (m, n) in [(DistributionMode::Move, "move"), (DistributionMode::Copy, "copy")] {
+        let (mut t, _, mut e) = gen_source(0, false);
+        t.distribution_mode = Some(m);
+        e.fields[6] = Exp::Is(rs(n));
+        emit!("source", t, e);
+    }
+    for (o, r) in [
+        (Outcome::Accepted(Accepted {}), desc(0x24, vec![])),
+        (Outcome::Released(Released {}), desc(0x26, vec![])),
+        (Outcome::Rejected(Rejected { error: None }), desc(0x25, vec![])),
+        (
+            Outcome::Modified(Modified {
+                delivery_failed: Some(true),
+                undeliverable_here: None,
+                message_annotations: None,
+            }),
+            desc(0x27, vec![RVal::Bool(true)]),
+        ),
+    ] {
+        let (mut t, _, mut e) = gen_source(0, false);
+        t.default_outcome = Some(o.clone());
+        e.fields[8] = Exp::Is(r.clone());
+        emit!("source", t, e);
+        let (mut t, _, mut e) = gen_txn_state(0, false);
+        t.outcome = Some(o);
+        e.fields[1] = Exp::Is(r);
+        emit!("transactional-state", t, e);
+    }
+    for (c, r) in [(SaslCode::Ok, 0u8), (SaslCode::Auth, 1), (SaslCode::Sys, 2), (SaslCode::SysPerm, 3), (SaslCode::SysTemp, 4)] {
+        emit!(
+            "sasl-outcome",
+            SaslOutcome {
+                code: c,
+                additional_data: None
+            },
+            Expect {
+                composite: "sasl-outcome",
+                fields: vec![Exp::Is(RVal::Ubyte(r)), Exp::Is(RVal::Null)]
+            }
+        );
+    }
+    for (c, n) in [
+        (TxnCapability::LocalTransactions, "amqp:local-transactions"),
+        (TxnCapability::DistributedTransactions, "amqp:distributed-transactions"),
+        (TxnCapability::PromotableTransactions, "amqp:promotable-transactions"),
+        (TxnCapability::MultiTxnsPerSsn, "amqp:multi-txns-per-ssn"),
+        (TxnCapability::MultiSsnsPerTxn, "amqp:multi-ssns-per-txn"),
+    ] {
+        emit!(
+            "coordinator",
+            Coordinator {
+                capabilities: Some(Array(vec![c]))
+            },
+            Expect {
+                composite: "coordinator",
+                fields: vec![Exp::Multi(vec![rs(n)])]
+            }
+        );
+    }
+    // delivery tags of every length 0..=32, transaction ids
+    for l in 0..=32usize {
+        let tag: Vec<u8> = (0..l as u8).collect();
+        let (mut t, _, mut e) = gen_transfer(0, false);
+        t.delivery_tag = Some(ByteBuf::from(tag.clone()));
+        e.fields[2] = Exp::Is(RVal::Binary(tag));
+        emit!("transfer", t, e);
+    }
+    idx
 }
 
 /// dispatch one (type, mask, alt) case to the visitor - used by replay
@@ -896,6 +1325,8 @@ pub fn visit_one<V: Visitor>(v: &V, ty: &str, mask: u64, alt: bool) -> Vec<(Stri
         "header" => go!("header", gen_header),
         "properties" => go!("properties", gen_properties),
         "received" => go!("received", gen_received),
+        "accepted" => go!("accepted", gen_accepted),
+        "released" => go!("released", gen_released),
         "rejected" => go!("rejected", gen_rejected),
         "modified" => go!("modified", gen_modified),
         "declare" => go!("declare", gen_declare),
@@ -1006,7 +1437,22 @@ pub fn run_roundtrip(ctx: &Ctx) -> TypedResult {
     enumerate(&RoundTrip, ctx)
 }
 
+pub fn replay_sweep<V: Visitor>(v: &V, r: &serde_json::Value) -> Vec<Fail3> {
+    let mut res = TypedResult {
+        evaluations: 0,
+        distinct: 0,
+        fails: vec![],
+        types: vec![],
+        samples: vec![],
+    };
+    sweep(v, r["index"].as_u64(), &mut res);
+    res.fails
+}
+
 pub fn replay_one(r: &serde_json::Value) -> Vec<Fail3> {
+    if r["kind"] == "typed-sweep" {
+        return replay_sweep(&RoundTrip, r);
+    }
     let ty = r["type"].as_str().unwrap_or("");
     let mask = r["mask"].as_u64().unwrap_or(0);
     let alt = r["alt"].as_bool().unwrap_or(false);
@@ -1018,3 +1464,57 @@ pub fn replay_one(r: &serde_json::Value) -> Vec<Fail3> {
 
 #[allow(dead_code)]
 pub fn unused(_: RType) {}
+
+/// Decode `enc` through the enum that selects its variant by peeking the descriptor (Performative,
+/// DeliveryState, Outcome, SASL frame, TargetArchetype) for the composite `ty`.  Returns the Debug
+/// rendering of what was decoded for each applicable wrapper, together with the rendering expected
+/// for an item whose own Debug rendering is `item_dbg`.
+pub fn wrapper_decodes(ty: &str, enc: &[u8], item_dbg: &str, reader: bool) -> Vec<(&'static str, String, Result<String, String>)> {
+    fn dec<T: DeserializeOwned + Debug>(enc: &[u8], reader: bool) -> Result<String, String> {
+        let r = if reader {
+            catch(|| serde_amqp::from_reader::<T>(std::io::Cursor::new(enc)))
+        } else {
+            catch(|| serde_amqp::from_slice::<T>(enc))
+        };
+        match r {
+            Ok(Ok(v)) => Ok(format!("{:?}", v)),
+            Ok(Err(e)) => Err(format!("rejected: {e}")),
+            Err(p) => Err(format!("panic: {p}")),
+        }
+    }
+    let mut out = vec![];
+    let perf = |v: &str| format!("{v}({item_dbg})");
+    match ty {
+        "open" => out.push(("Performative", perf("Open"), dec::<Performative>(enc, reader))),
+        "begin" => out.push(("Performative", perf("Begin"), dec::<Performative>(enc, reader))),
+        "attach" => out.push(("Performative", perf("Attach"), dec::<Performative>(enc, reader))),
+        "flow" => out.push(("Performative", perf("Flow"), dec::<Performative>(enc, reader))),
+        "transfer" => out.push(("Performative", perf("Transfer"), dec::<Performative>(enc, reader))),
+        "disposition" => out.push(("Performative", perf("Disposition"), dec::<Performative>(enc, reader))),
+        "detach" => out.push(("Performative", perf("Detach"), dec::<Performative>(enc, reader))),
+        "end" => out.push(("Performative", perf("End"), dec::<Performative>(enc, reader))),
+        "close" => out.push(("Performative", perf("Close"), dec::<Performative>(enc, reader))),
+        "received" => out.push(("DeliveryState", perf("Received"), dec::<DeliveryState>(enc, reader))),
+        "accepted" | "rejected" | "released" | "modified" | "declared" => {
+            let v = match ty {
+                "accepted" => "Accepted",
+                "rejected" => "Rejected",
+                "released" => "Released",
+                "modified" => "Modified",
+                _ => "Declared",
+            };
+            out.push(("DeliveryState", perf(v), dec::<DeliveryState>(enc, reader)));
+            out.push(("Outcome", perf(v), dec::<Outcome>(enc, reader)));
+        }
+        "transactional-state" => out.push(("DeliveryState", perf("TransactionalState"), dec::<DeliveryState>(enc, reader))),
+        "target" => out.push(("TargetArchetype", perf("Target"), dec::<TargetArchetype>(enc, reader))),
+        "coordinator" => out.push(("TargetArchetype", perf("Coordinator"), dec::<TargetArchetype>(enc, reader))),
+        "sasl-mechanisms" => out.push(("SaslFrame", perf("Mechanisms"), dec::<fe2o3_amqp::frames::sasl::Frame>(enc, reader))),
+        "sasl-init" => out.push(("SaslFrame", perf("Init"), dec::<fe2o3_amqp::frames::sasl::Frame>(enc, reader))),
+        "sasl-challenge" => out.push(("SaslFrame", perf("Challenge"), dec::<fe2o3_amqp::frames::sasl::Frame>(enc, reader))),
+        "sasl-response" => out.push(("SaslFrame", perf("Response"), dec::<fe2o3_amqp::frames::sasl::Frame>(enc, reader))),
+        "sasl-outcome" => out.push(("SaslFrame", perf("Outcome"), dec::<fe2o3_amqp::frames::sasl::Frame>(enc, reader))),
+        _ => {}
+    }
+    out
+}
